@@ -262,6 +262,15 @@ func main() {
 	switch {
 	case *replay != "":
 		code = doReplay(prop, *replay)
+	case prop == "warm":
+		// build + one run, to warm the Go build cache and the wazero compilation cache
+		c := props["C01"].plan("quick", seed, 1)[0]
+		res, _ := runCase(c, false, nil, "")
+		if res.rec == nil {
+			fatal2("warm-up run produced no record (exit %d):\n%s", res.exit, tailOf(res.stderr, 3000))
+		}
+		fmt.Println("warm: ok", res.rec.EndReason)
+		code = 0
 	case prop == "selftest":
 		code = doSelftest(*tier, seed, *workers)
 	default:
